@@ -347,6 +347,29 @@ def run(ctx: Ctx):
                         if not ok:
                             ctx.fail("P:C02:zoned-value-equal", {"tzkind": name, "wall": wall.isoformat(), "provider": prov,
                                                                  "naive_back": bool(g1 is not None and g1.tzinfo is None)}, obs, repr(d))
+            # properties with a UTC-converting setter: a zoned value of any family is stored and read back as the same instant,
+            # written in the Z form
+            from dateutil import tz as _dtz2
+            import pytz as _pytz2
+            for attr, wire, cls in (("DTSTAMP", "DTSTAMP", Event), ("LAST_MODIFIED", "LAST-MODIFIED", Todo), ("ACKNOWLEDGED", "ACKNOWLEDGED", Alarm),
+                                    ("X_MOZ_SNOOZE_TIME", "X-MOZ-SNOOZE-TIME", Event), ("X_MOZ_LASTACK", "X-MOZ-LASTACK", Todo)):
+                for zv in (tzp.localize(datetime(2024, 7, 1, 14, 30, 5), "Europe/Vienna"), datetime(2024, 1, 5, 9, 0, tzinfo=ZoneInfo("America/New_York")),
+                           _pytz2.timezone("Asia/Tokyo").localize(datetime(2024, 3, 3, 3, 3, 3)), datetime(2024, 7, 1, 12, 0, tzinfo=_dtz2.tzoffset(None, 3600)),
+                           datetime(2024, 7, 1, 12, 0, tzinfo=UTC)):
+                    ctx.evaluations += 1
+                    ctx.case(("utc-setter", attr, repr(zv), prov), True)
+                    comp = cls()
+                    try:
+                        setattr(comp, attr, zv)
+                        b = comp.to_ical()
+                        got = getattr(cls.from_ical(b), attr)
+                        line = [ln for ln in unfold_lines(b) if ln.upper().startswith(wire)][0]
+                        ok = got is not None and got.tzinfo is not None and got == zv and line.endswith("Z") and "TZID" not in line.upper()
+                        obs = [line, repr(got)]
+                    except Exception as x:   # noqa: BLE001
+                        ok, obs = False, type(x).__name__ + ": " + str(x)[:80]
+                    if not ok:
+                        ctx.fail("P:C02:value-equal", {"setter": attr, "value": repr(zv), "provider": prov, "cls": cls.__name__}, obs, None)
             for n, k in (("COMMENT", "text"), ("ATTENDEE", "cal-address"), ("RDATE", "dt-list-zoned"), ("EXDATE", "date-list"), ("ATTACH", "uri")):
                 comp = comp_for(n)
                 vals = []
